@@ -86,7 +86,8 @@ def h_int_range(E):
         # concrete confirmation of the existential obligation: run the real sampler under EVERY outcome the randint contract allows
         import mitxgraders.sampling as S
 
-        class EnumRandint:
+        class EnumRng:
+            """every outcome the documented contracts allow: randint(low, high) -> low .. high-1 in turn; random_sample() -> a fine grid of [0, 1)"""
             def __init__(self):
                 self.k = 0
                 self.span = None
@@ -96,7 +97,16 @@ def h_int_range(E):
                 v = low + self.k
                 self.k += 1
                 return v
-        er = EnumRandint()
+
+            def random_sample(self, size=None):
+                self.span = (0, 4096)
+                v = (self.k % 4096) / 4096.0
+                self.k += 1
+                return v
+
+            def uniform(self, low=0.0, high=1.0, size=None):
+                return low + (high - low) * self.random_sample()
+        er = EnumRng()
 
         class P:
             random = er
@@ -107,7 +117,7 @@ def h_int_range(E):
         with shadow(S, np=P()):
             s2 = IntegerRange(start=a, stop=b)
             seen.add(s2.gen_sample())
-            while er.k < er.span[1] - er.span[0]:
+            while er.span is not None and er.k < er.span[1] - er.span[0]:
                 seen.add(s2.gen_sample())
         E.check('integer-endpoints-attainable', min(a, b) in seen and max(a, b) in seen)
     return 'ok'
